@@ -4,27 +4,173 @@ package cbor
 
 import "github.com/fido-device-onboard/go-fdo/internal/verif"
 
-// C11 (a): decode(encode(v)) == v for every int64.
-func VerifC11_Int64RoundTrip() {
+type vInteger interface {
+	~int8 | ~int16 | ~int32 | ~int64 | ~int | ~uint8 | ~uint16 | ~uint32 | ~uint64 | ~uint
+}
+
+func vRoundTripInt[T vInteger](v T, kind string) {
 	verif.NoPanic()
-	v := verif.I64("v")
+	verif.Bound("C11a "+kind, "all values of the kind")
 	b, err := Marshal(v)
-	verif.Assert(err == nil, "encode int64 succeeds")
-	var w int64
+	verif.Assert(err == nil, kind+": encode succeeds")
+	var w T
 	err = Unmarshal(b, &w)
-	verif.Assert(err == nil, "decode(encode(int64)) succeeds")
-	verif.Assert(w == v, "decode(encode(int64)) == v")
+	verif.Assert(err == nil, kind+": decode(encode(v)) succeeds")
+	verif.Assert(w == v, kind+": decode(encode(v)) == v")
+	// re-encoding is stable
+	b2, err := Marshal(w)
+	verif.Assert(verif.And(err == nil, verif.BytesEq(b, b2)), kind+": encode(decode(encode(v))) == encode(v)")
 	verif.Reached("end")
 }
 
-func VerifC11_Uint64RoundTrip() {
+func VerifC11_RT_int8()   { vRoundTripInt(verif.I8("v"), "int8") }
+func VerifC11_RT_int16()  { vRoundTripInt(verif.I16("v"), "int16") }
+func VerifC11_RT_int32()  { vRoundTripInt(verif.I32("v"), "int32") }
+func VerifC11_RT_int64()  { vRoundTripInt(verif.I64("v"), "int64") }
+func VerifC11_RT_int()    { vRoundTripInt(verif.Int("v"), "int") }
+func VerifC11_RT_uint8()  { vRoundTripInt(verif.U8("v"), "uint8") }
+func VerifC11_RT_uint16() { vRoundTripInt(verif.U16("v"), "uint16") }
+func VerifC11_RT_uint32() { vRoundTripInt(verif.U32("v"), "uint32") }
+func VerifC11_RT_uint64() { vRoundTripInt(verif.U64("v"), "uint64") }
+func VerifC11_RT_uint()   { vRoundTripInt(verif.Uint("v"), "uint") }
+
+// reference: shortest-form head for major type maj and argument n.
+func vRefHead(maj byte, n uint64) []byte {
+	switch {
+	case n < 24:
+		return []byte{maj<<5 | byte(n)}
+	case n <= 0xff:
+		return []byte{maj<<5 | 24, byte(n)}
+	case n <= 0xffff:
+		return []byte{maj<<5 | 25, byte(n >> 8), byte(n)}
+	case n <= 0xffffffff:
+		return []byte{maj<<5 | 26, byte(n >> 24), byte(n >> 16), byte(n >> 8), byte(n)}
+	}
+	return []byte{maj<<5 | 27, byte(n >> 56), byte(n >> 48), byte(n >> 40), byte(n >> 32), byte(n >> 24), byte(n >> 16), byte(n >> 8), byte(n)}
+}
+
+// C11 (b): integer heads are the shortest form, major type by sign.
+func VerifC11_ShortestHeadUint() {
 	verif.NoPanic()
 	v := verif.U64("v")
 	b, err := Marshal(v)
-	verif.Assert(err == nil, "encode uint64 succeeds")
-	var w uint64
-	err = Unmarshal(b, &w)
-	verif.Assert(err == nil, "decode(encode(uint64)) succeeds")
-	verif.Assert(w == v, "decode(encode(uint64)) == v")
+	verif.Assert(err == nil, "encode uint64")
+	verif.Assert(verif.BytesEq(b, vRefHead(0, v)), "uint64 encodes as the shortest major-0 head")
+	verif.Reached("end")
+}
+
+func VerifC11_ShortestHeadInt() {
+	verif.NoPanic()
+	v := verif.I64("v")
+	b, err := Marshal(v)
+	verif.Assert(err == nil, "encode int64")
+	if v >= 0 {
+		verif.Assert(verif.BytesEq(b, vRefHead(0, uint64(v))), "non-negative int64 encodes as the shortest major-0 head")
+	} else {
+		verif.Assert(verif.BytesEq(b, vRefHead(1, uint64(-1-v))), "negative int64 encodes as the shortest major-1 head of -1-v")
+	}
+	verif.Reached("end")
+}
+
+// C11 (c): byte/text string heads are shortest for boundary lengths; content preserved.
+func VerifC11_StringHeads() {
+	verif.NoPanic()
+	lens := []int{0, 1, 23, 24, 255, 256, 300}
+	if verif.Tier() > 0 {
+		lens = append(lens, 65535, 65536, 70000)
+	}
+	verif.Bound("C11c lengths", "0,1,23,24,255,256,300 (+65535,65536,70000 thorough); content symbolic for lengths <= 24, else zero-filled with symbolic first/last byte")
+	n := lens[verif.Choose("len", len(lens))]
+	var content []byte
+	if n <= 24 {
+		content = verif.Bytes("content", n)
+	} else {
+		content = make([]byte, n)
+		content[0] = verif.U8("first")
+		content[n-1] = verif.U8("last")
+	}
+	b, err := Marshal(content)
+	verif.Assert(err == nil, "encode []byte")
+	want := append(vRefHead(2, uint64(n)), content...)
+	verif.Assert(verif.BytesEq(b, want), "[]byte encodes as shortest major-2 head + content")
+	var back []byte
+	err = Unmarshal(b, &back)
+	verif.Assert(verif.And(err == nil, verif.BytesEq(back, content)), "decode(encode([]byte)) == content")
+	s := string(content)
+	b, err = Marshal(s)
+	verif.Assert(err == nil, "encode string")
+	verif.Assert(verif.BytesEq(b, append(vRefHead(3, uint64(n)), content...)), "string encodes as shortest major-3 head + content")
+	var sback string
+	err = Unmarshal(b, &sback)
+	verif.Assert(verif.And(err == nil, verif.StrEq(sback, s)), "decode(encode(string)) == s")
+	verif.Reached("end")
+}
+
+func vLess(a, b []byte) bool { // bytewise lexical, a != b assumed when used
+	n := min(len(a), len(b))
+	for i := 0; i < n; i++ {
+		if a[i] != b[i] {
+			return a[i] < b[i]
+		}
+	}
+	return len(a) < len(b)
+}
+
+// C11 (d): map keys come out sorted bytewise, for every insertion order; the map round-trips.
+func VerifC11_MapOrderInt() {
+	verif.NoPanic()
+	nk := 2 + verif.Tier()
+	verif.Bound("C11d keys", "2 (quick) / 3 (thorough) symbolic keys over the int8 range (quick) / int16 range (thorough), held in an int64 map; all rotations and reversals of insertion order")
+	keys := make([]int64, nk)
+	vals := make([]int64, nk)
+	for i := range keys {
+		if verif.Tier() > 0 {
+			keys[i] = int64(verif.I16("k"))
+		} else {
+			keys[i] = int64(verif.I8("k"))
+		}
+		vals[i] = int64(verif.U8("val"))
+	}
+	for i := range keys {
+		for j := 0; j < i; j++ {
+			verif.Assume(keys[i] != keys[j])
+		}
+	}
+	// insertion order: rotate by a chosen offset, optionally reversed
+	off := verif.Choose("rot", nk)
+	rev := verif.Choose("rev", 2)
+	m := make(map[int64]int64)
+	for i := 0; i < nk; i++ {
+		idx := (i + off) % nk
+		if rev == 1 {
+			idx = nk - 1 - idx
+		}
+		m[keys[idx]] = vals[idx]
+	}
+	b, err := Marshal(m)
+	verif.Assert(err == nil, "encode map")
+	verif.Assert(len(b) > 0 && b[0] == 0xa0|byte(nk), "map head is major 5 with the pair count")
+	// walk the pairs with the real stream decoder
+	dec := NewDecoder(bytesReader(b[1:]))
+	var prev []byte
+	for i := 0; i < nk; i++ {
+		var k, v RawBytes
+		verif.Assert(dec.Decode(&k) == nil, "map key decodes")
+		verif.Assert(dec.Decode(&v) == nil, "map value decodes")
+		if i > 0 {
+			verif.Assert(vLess(prev, k), "encoded map keys strictly ascending bytewise")
+		}
+		prev = k
+	}
+	var back map[int64]int64
+	err = Unmarshal(b, &back)
+	verif.Assert(err == nil, "decode(encode(map)) succeeds")
+	verif.Assert(len(back) == nk, "decoded map has all pairs")
+	for i := range keys {
+		got, ok := back[keys[i]]
+		verif.Assert(verif.And(ok, got == vals[i]), "decoded map maps every key to its value")
+	}
+	b2, err := Marshal(back)
+	verif.Assert(verif.And(err == nil, verif.BytesEq(b, b2)), "encode(decode(encode(map))) == encode(map)")
 	verif.Reached("end")
 }
